@@ -205,6 +205,11 @@ func runC06(r *run) {
 			slog.SetLevelColors(slog.Level(c.lvl), color.Color(fg), color.Color(bg))
 			r.emit(fmt.Sprintf("C17 setcolors %d %d %d", c.lvl, fg, bg), "ok")
 		}
+		if i%64 == 33 {
+			// lines after the first are printed as they are, four blanks in front: markup characters, ampersands and their own
+			// leading blanks included
+			c.msg = []string{"comparison failed\nexpected left < right\n  retry && report", "two lines\na <b>bold</b> word & more", "first\n<\n&amp;\n    indented < line\n"}[(i/64)%3]
+		}
 		big := ""
 		if i%128 == 21 {
 			// a record far longer than any line buffer: a long attribute value, or a long second line of the message
@@ -362,6 +367,21 @@ func runC06(r *run) {
 				if !strings.HasPrefix(l, "    ") {
 					r.violate(violation{What: "layout: a remaining message line is not indented by four spaces", Input: encDescribe(c), Actual: fmt.Sprintf("%q", plain)})
 					break
+				}
+			}
+			if i%64 == 33 {
+				// and, for the pinned messages, it is the line of the message itself that follows the four blanks
+				ml := strings.Split(strings.TrimSuffix(c.msg, "\n"), "\n")[1:]
+				for k := range ml {
+					if k >= len(tail) || tail[k] != "    "+ml[k] {
+						got := "nothing"
+						if k < len(tail) {
+							got = tail[k]
+						}
+						r.violate(violation{What: "layout: a remaining message line is not the line of the message behind four blanks", Input: encDescribe(c),
+							Expected: fmt.Sprintf("%q", "    "+ml[k]), Actual: fmt.Sprintf("%q", got)})
+						break
+					}
 				}
 			}
 		}
